@@ -460,7 +460,8 @@ def _unpack_filter_extensible_header(
 
     header_split.pop(0)
 
-    if header_split and header_split[0] == "dn":
+    # The ABNF "dn" literal in RFC 4515 is case insensitive.
+    if header_split and header_split[0].lower() == "dn":
         for_dn = True
         header_split.pop(0)
 
